@@ -162,7 +162,9 @@ func checkC02(c C02Case, rec *obs.Recorder) *obs.Violation {
 func drawC02(t *rapid.T) C02Case {
 	cfg := gen.DefaultProg
 	cfg.MaxBlocks = 2
-	cfg.PCheckSat = 55 // refusals are what an attacker wants to overturn
+	cfg.PCheckSat = 70 // refusals are what an attacker wants to overturn; few enough failing checks that one block can address them all
+	cfg.MaxChecks = 1
+	cfg.RuleCfg.MaxExprs = 1
 	cfg.PPolicyMatch = 35
 	sc := gen.DrawScenario(t, cfg, gen.SmallProfile)
 	c := C02Case{Token: sc.Token, Authz: sc.Authz, RootSeed: rapid.Uint64Range(1, 1<<20).Draw(t, "root"), Reload: rapid.Bool().Draw(t, "reload")}
